@@ -239,6 +239,44 @@ def replay_check_of(repo, notes):
     return res, ok
 
 
+def payload_bound_of(repo, notes):
+    """rip_kernel::MAX_PAYLOAD_NESTING and the places where outside JSON enters a frame and is held to it"""
+    bound, guards = 0, []
+    p = os.path.join(repo, "crates/rip-kernel/src/lib.rs")
+    src = blank_literals(strip_tests(strip_comments(open(p).read()))) if os.path.exists(p) else ""
+    m = re.search(r"\bpub\s+const\s+MAX_PAYLOAD_NESTING\s*:\s*usize\s*=\s*(\d+)\s*;", src)
+    if m and re.search(r"\bpub\s+fn\s+json_nesting\s*\(", src):
+        bound = int(m.group(1))
+    else:
+        notes.append("rip-kernel: MAX_PAYLOAD_NESTING / json_nesting not found")
+    GUARD = re.compile(r"json_nesting\s*\(\s*&\s*([\w.]+)\s*\)\s*(<=|>)\s*(?:rip_kernel\s*::\s*)?MAX_PAYLOAD_NESTING")
+    for rel, fn, what in (("crates/rip-provider-openresponses/src/lib.rs", "parse_event", "provider event payload"),
+                          ("crates/ripd/src/session.rs", "parse_action", "tool command envelope"),
+                          ("crates/ripd/src/session.rs", None, "function-call arguments"),
+                          ("crates/ripd/src/server.rs", "create_task", "POST /tasks arguments")):
+        q = os.path.join(repo, rel)
+        text = blank_literals(strip_tests(strip_comments(open(q).read()))) if os.path.exists(q) else ""
+        found = False
+        if fn is not None:
+            b = fn_body(text, fn)
+            if b is None and os.path.exists(q):
+                # route strings such as "/x/*y" defeat the comment stripper on this file: look at the raw text
+                # that follows the function header
+                raw = open(q).read()
+                h = re.search(r"\bfn\s+" + fn + r"\s*\(", raw)
+                b = raw[h.end():h.end() + 1500] if h else None
+            found = b is not None and GUARD.search(b) is not None
+        else:
+            # the match arm that parses `call.arguments`
+            for m2 in re.finditer(r"from_str\s*::\s*<\s*Value\s*>\s*\(\s*&\s*call\s*\.\s*arguments\s*\)", text):
+                if GUARD.search(text[m2.end():m2.end() + 400]):
+                    found = True
+        guards.append(found)
+        if not found:
+            notes.append(f"{rel}: {what} is not held to MAX_PAYLOAD_NESTING")
+    return bound, guards
+
+
 def log_write_of(repo, notes):
     """EventLog::append writes the line and flushes, unconditionally; the sidecar append flushes too"""
     res = {"writes_line": False, "flush": False, "side_flush": False}
@@ -336,6 +374,13 @@ def main():
     lines.append("Definition gen_log_write : log_write :=")
     lines.append(f"  {{| lw_writes_line := {coq_bool(lw['writes_line'])}; lw_flush := {coq_bool(lw['flush'])}; lw_side_flush := {coq_bool(lw['side_flush'])} |}}.")
     lines.append("Lemma gen_log_write_ok : gen_ok_log_write && wf_log_write gen_log_write = true.")
+    lines.append("Proof. vm_compute. reflexivity. Qed.")
+    bound, guards = payload_bound_of(a.repo, rnotes)
+    lines.append("")
+    lines.append("(* rip_kernel::MAX_PAYLOAD_NESTING and the four places where JSON from outside enters a frame *)")
+    lines.append(f"Definition gen_payload_bound : N := {bound}.")
+    lines.append("Definition gen_payload_guards : list bool := [" + "; ".join(coq_bool(g) for g in guards) + "].")
+    lines.append("Lemma gen_payload_bound_ok : wf_payload_bound gen_payload_bound gen_payload_guards = true.")
     lines.append("Proof. vm_compute. reflexivity. Qed.")
     notes = notes + rnotes
     os.makedirs(a.out, exist_ok=True)
